@@ -116,8 +116,8 @@ impl Kind {
 
 #[derive(Clone, Debug, PartialEq)]
 enum OpK {
-    /// log in again on the same account (privileged?)
-    Login(bool),
+    /// log in again on the same account (privileged?, session record lost before it is written?)
+    Login(bool, bool),
     /// re-authenticate with token #i; true = GrantReadWrite
     Reauth(usize, bool),
     /// revoke the session of token #i
@@ -131,7 +131,7 @@ enum OpK {
 impl OpK {
     fn to_json(&self) -> Json {
         match self {
-            OpK::Login(p) => json!(["login", p]),
+            OpK::Login(p, lost) => json!(["login", p, lost]),
             OpK::Reauth(i, rw) => json!(["reauth", i, rw]),
             OpK::Revoke(i) => json!(["revoke", i]),
             OpK::Advance(dt) => json!(["advance", dt.to_string()]),
@@ -141,7 +141,7 @@ impl OpK {
     fn from_json(v: &Json) -> OpK {
         let a = v.as_array().expect("op");
         match a[0].as_str().unwrap() {
-            "login" => OpK::Login(a[1].as_bool().unwrap()),
+            "login" => OpK::Login(a[1].as_bool().unwrap(), a.get(2).and_then(|x| x.as_bool()).unwrap_or(false)),
             "reauth" => OpK::Reauth(a[1].as_u64().unwrap() as usize, a[2].as_bool().unwrap()),
             "revoke" => OpK::Revoke(a[1].as_u64().unwrap() as usize),
             "advance" => OpK::Advance(a[1].as_str().unwrap().parse().unwrap()),
@@ -151,7 +151,7 @@ impl OpK {
     }
     fn shape(&self) -> String {
         match self {
-            OpK::Login(p) => format!("L{}", *p as u8),
+            OpK::Login(p, lost) => format!("L{}{}", *p as u8, if *lost { "x" } else { "" }),
             OpK::Reauth(i, rw) => format!("R{i}{}", if *rw { "w" } else { "v" }),
             OpK::Revoke(i) => format!("X{i}"),
             OpK::Advance(dt) => format!("A{dt}"),
@@ -164,6 +164,8 @@ impl OpK {
 struct Case {
     kind: Kind,
     privileged: bool,
+    /// the first login's session record is lost
+    lost: bool,
     /// configured on the two builtin policy groups (seconds)
     sess: u32,
     priv_: u32,
@@ -175,7 +177,7 @@ struct Case {
 impl Case {
     fn to_json(&self) -> Json {
         json!({
-            "stream": "flow", "kind": self.kind.name(), "privileged": self.privileged,
+            "stream": "flow", "kind": self.kind.name(), "privileged": self.privileged, "lost": self.lost,
             "sess": self.sess, "priv": self.priv_, "start": self.start.to_string(),
             "ops": self.ops.iter().map(|o| o.to_json()).collect::<Vec<_>>(),
         })
@@ -184,6 +186,7 @@ impl Case {
         Case {
             kind: Kind::parse(v["kind"].as_str().unwrap()),
             privileged: v["privileged"].as_bool().unwrap(),
+            lost: v["lost"].as_bool().unwrap_or(false),
             sess: v["sess"].as_u64().unwrap() as u32,
             priv_: v["priv"].as_u64().unwrap() as u32,
             start: v["start"].as_str().unwrap().parse().unwrap(),
@@ -352,8 +355,10 @@ impl Worker {
         Acct { name, uuid, kind, bc_next: 0 }
     }
 
-    /// Apply every queued delayed action (session records, backup code removal, …).
-    async fn drain(&mut self, ct: Duration) -> Vec<String> {
+    /// Apply every queued delayed action (session records, backup code removal, …); with
+    /// `lose_sessions` the `AuthSessionRecord`s are dropped instead (the asynchronous write never
+    /// happens).
+    async fn drain(&mut self, ct: Duration, lose_sessions: bool) -> Vec<String> {
         let mut types = vec![];
         loop {
             let mut buf: Vec<DelayedAction> = Vec::with_capacity(8);
@@ -369,6 +374,9 @@ impl Worker {
             for da in buf {
                 if let DelayedAction::AuthSessionRecord(asr) = &da {
                     types.push(format!("{:?}", asr.type_).to_lowercase());
+                    if lose_sessions {
+                        continue;
+                    }
                 }
                 w.process_delayedaction(&da, ct).expect("delayed action");
             }
@@ -526,15 +534,18 @@ impl Worker {
         let mut used_ok = false;
         let mut saw_rw = false;
 
-        let mut ops: Vec<OpK> = vec![OpK::Login(c.privileged)];
+        let mut ops: Vec<OpK> = vec![OpK::Login(c.privileged, c.lost)];
         ops.extend(c.ops.iter().cloned());
         for op in &ops {
             match op {
-                OpK::Login(p) => {
-                    lines.push(format!("auth {} {} {anon} {res_sess} {res_priv}", c.kind.auth_type(), *p as u8));
+                OpK::Login(p, lost) => {
+                    lines.push(format!("auth {} {} {anon} {} {res_sess} {res_priv}", c.kind.auth_type(), *p as u8, !*lost as u8));
+                    if *lost {
+                        self.rep.count("login:session-record-lost");
+                    }
                     match self.login(&mut acct, *p, dur(now)).await {
                         Ok(jws) => {
-                            let rec = self.drain(dur(now)).await;
+                            let rec = self.drain(dur(now), *lost).await;
                             if c.kind != Kind::Anon && rec != vec![c.kind.auth_type().to_string()] {
                                 imp.push(format!("err ?session-record-types {rec:?}"));
                                 continue;
@@ -559,7 +570,7 @@ impl Worker {
                         continue;
                     };
                     let r = self.reauth(&mut acct, &h.jws, *rw, dur(now)).await;
-                    self.drain(dur(now)).await;
+                    self.drain(dur(now), false).await;
                     // the credential the re-auth exchange ends with, by construction
                     let t = match c.kind {
                         Kind::Totp => "passwordtotp",
@@ -755,10 +766,10 @@ impl Worker {
         let mut acct = self.account(Kind::Pw, dur(base)).await;
         // two real sessions: one live, one revoked
         let live = self.login(&mut acct, false, dur(base)).await.expect("forge login");
-        self.drain(dur(base)).await;
+        self.drain(dur(base), false).await;
         let live = self.parse(&live, dur(base)).await.expect("parse");
         let dead = self.login(&mut acct, false, dur(base)).await.expect("forge login 2");
-        self.drain(dur(base)).await;
+        self.drain(dur(base), false).await;
         let dead = self.parse(&dead, dur(base)).await.expect("parse");
         self.revoke(&acct, dead.session_id, dur(base)).await;
         let anon_tok = {
@@ -770,10 +781,10 @@ impl Worker {
         // model world: same three logins
         let mut lines = vec![
             format!("reset {base}"),
-            "auth password 0 0 86400 600".to_string(),
-            "auth password 0 0 86400 600".to_string(),
+            "auth password 0 0 1 86400 600".to_string(),
+            "auth password 0 0 1 86400 600".to_string(),
             "revoke 1".to_string(),
-            "auth anonymous 0 1 86400 600".to_string(),
+            "auth anonymous 0 1 1 86400 600".to_string(),
         ];
         let mut imp: Vec<String> = vec![];
         let mut inputs: Vec<Json> = vec![];
@@ -1063,7 +1074,7 @@ impl Worker {
 // generator
 // ---------------------------------------------------------------------------------------------
 
-const SESS_VALUES: [u32; 9] = [30, 60, 599, 600, 3599, 3600, 3601, 7200, 86400];
+const SESS_VALUES: [u32; 9] = [60, 600, 3599, 3600, 3601, 7200, 86400, 86400, 86400];
 const PRIV_VALUES: [u32; 9] = [1, 5, 60, 600, 3599, 3600, 3601, 7200, 86400];
 const SUBSEC: [u128; 5] = [0, 1, 499_999_999, 500_000_000, 999_999_999];
 const DELTAS: [i128; 7] = [-1_000_000_000, -1, 0, 1, 1_000_000_000, -999_999_999, 999_999_999];
@@ -1079,6 +1090,7 @@ fn gen_case(seed: u64, i: u64, slot: u64) -> Case {
     let mut rng = Rng::for_case(seed, i);
     let kind = *rng.pick(&[Kind::Anon, Kind::Pw, Kind::Pw, Kind::Pw, Kind::Gpw, Kind::Totp, Kind::Totp, Kind::Bc]);
     let privileged = rng.chance(1, 3);
+    let lost = rng.chance(1, 12);
     // the policy changes every 48 cases (two group writes + dyngroup recomputation are the most
     // expensive part of a case); a replay carries its policy explicitly
     let mut prng = Rng::for_case(seed ^ 0x9011_c7, i / 48);
@@ -1102,7 +1114,8 @@ fn gen_case(seed: u64, i: u64, slot: u64) -> Case {
             if kind == Kind::Bc {
                 bc_left -= 1;
             }
-            ops.push(OpK::Login(rng.chance(1, 3)));
+            let p = rng.chance(1, 3);
+            ops.push(OpK::Login(p, rng.chance(1, 6)));
             toks.push(GenTok { marks: first_marks(now) });
         } else if r < 30 {
             let t = rng.below(toks.len() as u64) as usize;
@@ -1118,7 +1131,8 @@ fn gen_case(seed: u64, i: u64, slot: u64) -> Case {
         } else if r < 62 {
             // move to a boundary of some token
             let t = rng.below(toks.len() as u64) as usize;
-            let m = *rng.pick(&toks[t].marks);
+            // privilege edge twice as often as the session edge (after which everything is refused)
+            let m = if rng.chance(2, 3) { toks[t].marks[0] } else { toks[t].marks[1] };
             let target = (m as i128 + *rng.pick(&DELTAS)) as u128;
             if target > now {
                 ops.push(OpK::Advance(target - now));
@@ -1129,10 +1143,10 @@ fn gen_case(seed: u64, i: u64, slot: u64) -> Case {
             }
             ops.push(OpK::Use(t));
         } else if r < 72 {
-            let dt = match rng.below(4) {
-                0 => rng.below(5) as u128,
-                1 => rng.below(120) as u128 * NS + rng.below(NS as u64) as u128,
-                2 => rng.below(4000) as u128 * NS,
+            let dt = match rng.below(10) {
+                0..=2 => rng.below(5) as u128,
+                3..=6 => rng.below(120) as u128 * NS + rng.below(NS as u64) as u128,
+                7..=8 => rng.below(4000) as u128 * NS,
                 _ => rng.below(100_000) as u128 * NS,
             };
             ops.push(OpK::Advance(dt));
@@ -1145,7 +1159,18 @@ fn gen_case(seed: u64, i: u64, slot: u64) -> Case {
     for t in 0..toks.len().min(6) {
         ops.push(OpK::Use(t));
     }
-    Case { kind, privileged, sess, priv_, start, ops }
+    // a lost record matters inside / just after the 5-minute grace window
+    if lost {
+        let mut g = vec![OpK::Use(0), OpK::Reauth(0, true)];
+        let edge = floor(start) + 300 * NS;
+        let target = (edge as i128 + *rng.pick(&DELTAS)) as u128;
+        g.push(OpK::Advance(target - start));
+        g.push(OpK::Use(0));
+        // everything generated above happens after it, shifted by that much time
+        g.extend(ops);
+        ops = g;
+    }
+    Case { kind, privileged, lost, sess, priv_, start, ops }
 }
 
 /// Hand-written cases: the D-style witnesses a reader would try first.
@@ -1154,36 +1179,39 @@ fn corpus() -> Vec<Case> {
     let sec = |x: u128| x * NS;
     vec![
         // ordinary login, re-auth, window edge ±1 ns
-        Case { kind: Kind::Pw, privileged: false, sess: 86400, priv_: 600, start: s, ops: vec![
+        Case { lost: false, kind: Kind::Pw, privileged: false, sess: 86400, priv_: 600, start: s, ops: vec![
             OpK::Use(0), OpK::Advance(sec(10)), OpK::Reauth(0, true), OpK::Use(1), OpK::Use(0),
             OpK::Advance(sec(600) - 500_000_001), OpK::Use(1), OpK::Advance(1), OpK::Use(1), OpK::Advance(sec(1)), OpK::Use(1)] },
         // privileged login: capped at one hour although the session policy says a day
-        Case { kind: Kind::Pw, privileged: true, sess: 86400, priv_: 600, start: s, ops: vec![
+        Case { lost: false, kind: Kind::Pw, privileged: true, sess: 86400, priv_: 600, start: s, ops: vec![
             OpK::Use(0), OpK::Advance(sec(3600) - 500_000_001), OpK::Use(0), OpK::Advance(1), OpK::Use(0), OpK::Advance(2), OpK::Use(0), OpK::Reauth(0, true)] },
         // privileged login on a short session policy: min(session, limited)
-        Case { kind: Kind::Totp, privileged: true, sess: 60, priv_: 600, start: s, ops: vec![
+        Case { lost: false, kind: Kind::Totp, privileged: true, sess: 60, priv_: 600, start: s, ops: vec![
             OpK::Advance(sec(60) - 500_000_001), OpK::Use(0), OpK::Advance(1), OpK::Use(0), OpK::Advance(1), OpK::Use(0)] },
         // generated password: always privileged, never re-authenticates
-        Case { kind: Kind::Gpw, privileged: false, sess: 86400, priv_: 600, start: s, ops: vec![
+        Case { lost: false, kind: Kind::Gpw, privileged: false, sess: 86400, priv_: 600, start: s, ops: vec![
             OpK::Use(0), OpK::Reauth(0, true), OpK::Advance(sec(3599)), OpK::Use(0), OpK::Advance(sec(1)), OpK::Use(0)] },
         // anonymous: read-only, cannot re-authenticate, privileged flag ignored
-        Case { kind: Kind::Anon, privileged: true, sess: 86400, priv_: 600, start: s, ops: vec![
+        Case { lost: false, kind: Kind::Anon, privileged: true, sess: 86400, priv_: 600, start: s, ops: vec![
             OpK::Use(0), OpK::Reauth(0, true), OpK::Use(0), OpK::Advance(sec(86399)), OpK::Use(0), OpK::Advance(sec(2)), OpK::Use(0)] },
         // re-auth near the end of the session: expiry not extended, privilege clipped by it
-        Case { kind: Kind::Pw, privileged: false, sess: 600, priv_: 3600, start: s, ops: vec![
+        Case { lost: false, kind: Kind::Pw, privileged: false, sess: 600, priv_: 3600, start: s, ops: vec![
             OpK::Advance(sec(590)), OpK::Reauth(0, true), OpK::Use(1), OpK::Advance(sec(10) - 500_000_000), OpK::Use(1), OpK::Advance(1), OpK::Use(1), OpK::Use(0)] },
         // policy above the ceiling: privilege expiry 86400 configured, one hour granted
-        Case { kind: Kind::Pw, privileged: false, sess: 86400, priv_: 86400, start: s, ops: vec![
+        Case { lost: false, kind: Kind::Pw, privileged: false, sess: 86400, priv_: 86400, start: s, ops: vec![
             OpK::Reauth(0, true), OpK::Advance(sec(3600) - 500_000_001), OpK::Use(1), OpK::Advance(1), OpK::Use(1)] },
         // verify-only re-auth grants nothing; a second re-auth from the re-issued token works
-        Case { kind: Kind::Totp, privileged: false, sess: 86400, priv_: 60, start: s, ops: vec![
+        Case { lost: false, kind: Kind::Totp, privileged: false, sess: 86400, priv_: 60, start: s, ops: vec![
             OpK::Reauth(0, false), OpK::Use(1), OpK::Advance(sec(31)), OpK::Reauth(1, true), OpK::Use(2), OpK::Advance(sec(60)), OpK::Use(2), OpK::Use(1)] },
         // revoked session: tokens refused, re-auth refused
-        Case { kind: Kind::Pw, privileged: false, sess: 86400, priv_: 600, start: s, ops: vec![
+        Case { lost: false, kind: Kind::Pw, privileged: false, sess: 86400, priv_: 600, start: s, ops: vec![
             OpK::Reauth(0, true), OpK::Use(1), OpK::Revoke(0), OpK::Use(1), OpK::Use(0), OpK::Reauth(0, true)] },
         // backup-code login
-        Case { kind: Kind::Bc, privileged: false, sess: 86400, priv_: 600, start: s, ops: vec![
-            OpK::Use(0), OpK::Reauth(0, true), OpK::Use(0), OpK::Login(true), OpK::Use(1), OpK::Advance(sec(3600)), OpK::Use(1)] },
+        Case { lost: false, kind: Kind::Bc, privileged: false, sess: 86400, priv_: 600, start: s, ops: vec![
+            OpK::Use(0), OpK::Reauth(0, true), OpK::Use(0), OpK::Login(true, false), OpK::Use(1), OpK::Advance(sec(3600)), OpK::Use(1)] },
+        // the session record never reaches the database: grace window only, no re-auth
+        Case { lost: true, kind: Kind::Pw, privileged: true, sess: 86400, priv_: 600, start: s, ops: vec![
+            OpK::Use(0), OpK::Reauth(0, true), OpK::Advance(sec(300) - 500_000_001), OpK::Use(0), OpK::Advance(1), OpK::Use(0), OpK::Login(false, false), OpK::Use(1), OpK::Use(0)] },
     ]
 }
 
